@@ -476,6 +476,12 @@ func splitPath(requestPath string) (path []string) {
 // Query implements the ABCI interface. It delegates to CommitMultiStore if it
 // implements Queryable.
 func (app *BaseApp) Query(req abci.RequestQuery) (res abci.ResponseQuery) {
+	// a querier that panics (e.g. on the empty state before the first commit) must not take the process down
+	defer func() {
+		if r := recover(); r != nil {
+			res = sdk.ErrInternal(fmt.Sprintf("recovered: %v", r)).QueryResult()
+		}
+	}()
 	path := splitPath(req.Path)
 	if len(path) == 0 {
 		msg := "no query path provided"
